@@ -210,6 +210,7 @@ def tasksIn : Sk → Nat
   | .step r => tasksIn r
   | .wait r => tasksIn r
   | .par _ brs r => brTasks brs + tasksIn r
+  | .child _ sub r => tasksIn sub + tasksIn r + 1
   | _ => 0
 def brTasks : Br → Nat
   | .nil => 0
